@@ -276,7 +276,9 @@ def main():
     sys.path.insert(0, HERE)
     import extract_bexpr
     changed |= write_if_changed(os.path.join(OUT, "Omit.lean"), extract_bexpr.render(extract_bexpr.omission_exprs(parse)))
-    changed |= write_if_changed(os.path.join(OUT, "FieldLoop.lean"), extract_bexpr.render_field_loop(extract_bexpr.field_loop(parse)))
+    changed |= write_if_changed(os.path.join(OUT, "FieldLoop.lean"), extract_bexpr.render_field_loop(extract_bexpr.field_loop(parse), extract_bexpr.field_loop(parse, "SimpleObjectMethod")))
+    import extract_tail
+    changed |= write_if_changed(os.path.join(OUT, "ObjTail.lean"), extract_tail.render_obj_tail(extract_tail.obj_tail(parse)))
     changed |= write_if_changed(os.path.join(OUT, "FieldsSetSrc.lean"), extract_bexpr.render_fields_set(extract_bexpr.fields_set_exprs(parse)))
     changed |= write_if_changed(os.path.join(OUT, "OrderSrc.lean"), extract_bexpr.render_order(extract_bexpr.order_src(parse)))
     changed |= write_if_changed(os.path.join(OUT, "VersionsSrc.lean"), extract_bexpr.render_versions(extract_bexpr.versions_src(parse)))
